@@ -134,7 +134,7 @@ def chain_program(depth: int, as_root: bool, mode: str) -> Dict[str, Any]:
             {"t": "elem", "id": "leaf", "a": []}
         tpl = [{"t": "var", "x": "cid"}]
         tpl.append(inner if (as_root or i == depth) else {"t": "elem", "id": f"w{i}", "a": [inner]})
-        comps.append({"data": [P.datadef("cid", "id")], "tpl": tpl})
+        comps.append({"data": [P.datadef("cid", "id")], "tpl": tpl, "assets": P.no_assets()})
     return {"id": depth * 10 + (1 if as_root else 0), "mode": mode, "devs": [], "dyn": False, "pyctx": False,
             "ctx": [], "comps": comps,
             "page": [{"t": "comp", "c": 1, "kw": [], "only": False, "body": "none", "a": []}]}
